@@ -8,14 +8,14 @@ ROOT = os.path.dirname(os.path.dirname(os.path.abspath(__file__)))
 CHECKS = {
  "C20": ("exploration",
    "real-time scenario enumeration on a coarse grid, many connections concurrently, tolerance-zone oracle with a driver-slip guard",
-   "Keep-alive source (client value -> k + k/2, handshake override, v3 disabled) x pattern (dead peer after 0..2 packets at two phases; live peer for three periods, whole or fragmented packets; partial frame stalled / trickling below / above the frame read rate; half a CONNECT against the connect timeout; idle client with keep-alive), "
+   "Keep-alive source (client value -> k + k/2, handshake override, v3 disabled) x pattern (dead peer after 0..2 packets at two phases; live peer for three periods, whole or fragmented packets; partial frame stalled / trickling below the frame read rate / three fast-enough frames in a row; half a CONNECT or a trickling CONNECT against the connect timeout; idle client with keep-alive, with a full send window, after a stream that owed payload at a tick; live peer while a handler is busy; dead peer after the publish service was not ready for a while), "
    "v3 and v5, repeated at staggered phases of the 1 s timer wheel. Dead peers end inside [T-0.6 s, T+2.2 s] with a keep-alive timeout (v5 DISCONNECT 0x8D), live peers never, slow frames with a read timeout, fast-enough frames are handled, stalled CONNECT dropped, clients write PINGREQ every k+1.2 s.",
    "Wall-clock check: cases whose driver woke more than 0.3 s late are inconclusive; more than 5 % inconclusive gives exit 2, never a violation.",
    "DESIGN.md section 3 C20"),
  "C19": ("exploration",
    "bounded-exhaustive enumeration of first packets x cut sets of the first bytes x server kind, enumerated handshake outcomes, and proptest-generated limit tuples probed by behaviour",
    "(a) every first packet (CONNECT name/level/reserved-flag variations, every other v3/v5 packet) against v3-only, v5-only and combined servers, unfragmented, byte-at-a-time and under sampled cut sets, with a pipelined PUBLISH; all cut sets of the first 12 (thorough 15) bytes of the plain CONNECTs on the combined server. "
-   "(b) accept / every refusal code / handshake error, fast or held while the pipelined PUBLISH arrives. (c) configured x requested x overridden limit tuples, four roles, each limit probed after the handshake: CONNACK announcements, send window (credit and frames on the wire), inbound size, QoS, alias, Receive Maximum, outbound size.",
+   "(b) accept / every refusal code / handshake error, fast or held while the pipelined PUBLISH arrives. (c) configured x requested x overridden limit tuples, four roles, each limit probed after the handshake: CONNACK announcements, send window (credit and frames on the wire), inbound size (also lifted by the handshake), QoS, alias, Receive Maximum, outbound size; late first packets on a combined server without a version time limit.",
    "Trusted: reference codec. Keep-alive duration is measured by C20; a client keep-alive of 0 gets the library's documented idle timeout unannounced (not judged).",
    "DESIGN.md section 3 C19"),
  "C15": ("exploration",
@@ -66,14 +66,14 @@ CHECKS = {
  "C12": ("exploration",
    "stateful proptest bursts against gated handlers with an adaptive conforming/exceeding scripted peer; overlap/byte/liveness oracle",
    "Generated bursts of publishes (QoS 0/1/2, sizes around the byte limit, some streamed), PINGREQ and gated SUBSCRIBE, released in generated order, over the configuration grid max_receive 0..4 x "
-   "max_receive_size {0,64,1024,65535} (v3 default middleware) and Receive Maximum 1..4 (v5 server and client); the scripted v5 peer either stays within Receive Maximum or exceeds it at a generated point. "
+   "max_receive_size {0,1,8,64,1024,65535} (v3 default middleware) and Receive Maximum 1..4 (v5 server and client); the scripted v5 peer either stays within Receive Maximum or exceeds it at a generated point; deterministic scenarios for duplicate ids, repeated PUBREL, byte-limit boundaries and endpoints that announced no Receive Maximum. "
    "Handler overlap and packet bytes must stay within the limits, 0x93 is sent exactly to the exceeding peer, and with all gates open every publish is handled, read to its end, acknowledged and PINGREQ answered.",
    "Trusted: as C03. Exceeding is only judged when Receive Maximum publishes sit in unfinished handlers and no byte limit has paused reading.",
    "DESIGN.md section 3 C12"),
  "C17": ("exploration",
    "model-based stateful testing (per-connection alias map) with bounded-exhaustive short histories + proptest histories over two connections",
    "Every history of <=3 (quick) / <=4 (thorough) publishes over {topic only, bind, use} x two topics x aliases {1, max, max+1}, plus random histories of up to 10 publishes interleaved on two "
-   "connections of one server factory, with and without the topic router, server and client role, several advertised maxima; the handler must see the topic the model resolves and the route it selects, "
+   "connections of one server factory, with and without the topic router, server and client role, several advertised maxima (configured, rewritten by the handshake service, differing from the peer's CONNACK value), aliases bound by publishes dropped after an application close; the handler must see the topic the model resolves and the route it selects, "
    "invalid aliases must end the connection with a protocol error without reaching a handler, bindings of one connection are invisible on the other.",
    "Trusted: as C03.",
    "DESIGN.md section 3 C17"),
@@ -88,7 +88,7 @@ CHECKS = {
    "model-based stateful testing (reserved-id model) with bounded-exhaustive short histories + proptest histories",
    "Every history of 3 (quick) / 4 (thorough) packet ops over {PUBLISH QoS1/2, SUBSCRIBE, UNSUBSCRIBE, PUBREL} x ids {1,2} x gate placements, plus random histories over ids {1,2,3}, executed against "
    "servers and clients of both versions in lock-step with a reserved-id model whose release points are read off the wire: in-use ids never reach a handler (v3: violation 2.2.1-3, v5: 0x91), "
-   "released ids are accepted again on every release path, PUBREL for a free id is refused (v3 ends, v5 PUBCOMP 0x92).",
+   "released ids are accepted again on every release path, PUBREL for a free id is refused (v3 ends, v5 PUBCOMP 0x92); deterministic scenarios: reuse inside an open QoS 2 exchange (also with DUP), reuse on a connection the application closed while publishes are still handled.",
    "Trusted: as C03. Ambiguous instants (acknowledgement generated but not yet written; second control packet while one is in progress) are skipped and counted.",
    "DESIGN.md section 3 C11"),
  "C03": ("exploration",
@@ -101,7 +101,7 @@ CHECKS = {
    "DESIGN.md section 3 C03"),
  "C04": ("exploration",
    "bounded-exhaustive schedules (all completion permutations x immediate/deferred masks) + proptest histories; order oracle on the spec-decoded wire",
-   "For seven request-kind patterns every completion permutation, every immediate/deferred mask and two arrival groupings are executed (n=4 quick, n=5 thorough); random histories add write "
+   "For fourteen request-kind patterns (client patterns include PUBREL for the id of a running publish and the resource() routes) every completion permutation, every immediate/deferred mask and two arrival groupings are executed (n=4 quick, n=5 thorough); random histories add write "
    "groupings, gate openings interleaved with arrivals and stalled-peer (write back-pressure) episodes. At every settle point the responses on the wire must be exactly the longest "
    "arrival-order prefix of completed requests.",
    "Trusted: as C03. Exhaustive only for the listed patterns.",
